@@ -136,7 +136,7 @@ def check_kernels(pid, work, log):
             except Exception as e:  # fail closed
                 why.append(f"translator ({gfile}): {type(e).__name__}: {e}")
                 continue
-            if text in seen:
+            if text in seen or (reading > 0 and len(seen) > pynorm.MAX_COMPILED):
                 continue
             seen.add(text)
             open(os.path.join(gen, gfile), "w").write(text)
